@@ -305,6 +305,21 @@ func (p *parser) parsePermissionExpressions(finalToken itemType, depth int) *ast
 	}
 	var root *ast.SubjectSetRewrite
 
+	// '&&' binds tighter than '||'. When an '&&' follows a union at the same
+	// nesting level, only the last operand of the union starts the
+	// intersection (andGroup), and operands are added to it until the next '||'.
+	var (
+		sawOr    bool
+		andGroup *ast.SubjectSetRewrite
+	)
+	add := func(child ast.Child) {
+		if andGroup != nil {
+			andGroup.Children = append(andGroup.Children, child)
+			return
+		}
+		root = addChild(root, child)
+	}
+
 	// We only expect an expression in the beginning and after a binary
 	// operator.
 	expectExpression := true
@@ -321,7 +336,7 @@ func (p *parser) parsePermissionExpressions(finalToken itemType, depth int) *ast
 			if child == nil {
 				return nil
 			}
-			root = addChild(root, child)
+			add(child)
 			expectExpression = false
 
 		case item.Typ == finalToken:
@@ -341,11 +356,27 @@ func (p *parser) parsePermissionExpressions(finalToken itemType, depth int) *ast
 			if root == nil {
 				return nil
 			}
-			newRoot := &ast.SubjectSetRewrite{
-				Operation: setOperation(item.Typ),
-				Children:  []ast.Child{root},
+			switch {
+			case item.Typ == itemOperatorAnd && andGroup != nil:
+				// still inside the intersection
+			case item.Typ == itemOperatorAnd && sawOr && root.Operation == ast.OperatorOr && len(root.Children) > 0:
+				last := len(root.Children) - 1
+				andGroup = &ast.SubjectSetRewrite{
+					Operation: ast.OperatorAnd,
+					Children:  []ast.Child{root.Children[last]},
+				}
+				root.Children[last] = andGroup
+			default:
+				if item.Typ == itemOperatorOr {
+					sawOr = true
+					andGroup = nil
+				}
+				newRoot := &ast.SubjectSetRewrite{
+					Operation: setOperation(item.Typ),
+					Children:  []ast.Child{root},
+				}
+				root = newRoot
 			}
-			root = newRoot
 			expectExpression = true
 
 		// A "not" creates an AST node where the children are either a
@@ -356,7 +387,7 @@ func (p *parser) parsePermissionExpressions(finalToken itemType, depth int) *ast
 			if child == nil {
 				return nil
 			}
-			root = addChild(root, child)
+			add(child)
 			expectExpression = false
 
 		default:
@@ -370,7 +401,7 @@ func (p *parser) parsePermissionExpressions(finalToken itemType, depth int) *ast
 			if child == nil {
 				return nil
 			}
-			root = addChild(root, child)
+			add(child)
 			expectExpression = true
 		}
 	}
